@@ -4,7 +4,7 @@ Usage:
   git -C /repo worktree add --detach /tmp/c12mut HEAD      (or any scratch git checkout of ural: C12MUT_DIR=<dir>)
   /venv/bin/python notes/c12-string-mutations.py [names...]
   git -C /repo worktree remove --force /tmp/c12mut
-Since FX-C12-BRACKETSUFFIX the base must hold the fix (`a bracketed literal is never suffix-processed`):
+Since FX-C12-df640b6 the base must hold the fix (`a bracketed literal is never suffix-processed`):
 M16-M18 break it again."""
 import subprocess, sys, os
 SCR = os.environ.get('C12MUT_DIR', '/tmp/c12mut')
@@ -25,7 +25,7 @@ MUTS = {
  'M13-suffix-last-label-only': ('ural/lru/stems.py', '            lru.append("h:" + suffix)', '            lru.append("h:" + suffix.split(".")[-1])'),
  'M14-fragment-hash-stripped': ('ural/lru/stems.py', '        lru.append("f:" + fragment)', '        lru.append("f:" + fragment.lstrip("#"))'),
  'M15-value-cut-at-second-colon': ('ural/lru/conversion.py', '        tag, value = stem.split(":", 1)', '        tag, value = stem.split(":")[:2]'),
- # the fix FX-C12-BRACKETSUFFIX (formerly KF-C12-1) broken again, three ways
+ # the fix FX-C12-df640b6 (formerly KF-C12-1) broken again, three ways
  'M16-bracket-fix-reverted': ('ural/lru/stems.py', '    if netloc[0].startswith("["):\n        suffix_aware = False\n', '    pass\n'),
  'M17-bracket-fix-not-for-zone-ids': ('ural/lru/stems.py', '    if netloc[0].startswith("["):\n        suffix_aware = False\n', '    if netloc[0].startswith("[") and "%" not in netloc[0]:\n        suffix_aware = False\n'),
  'M18-bracket-fix-only-ipvfuture': ('ural/lru/stems.py', '    if netloc[0].startswith("["):\n        suffix_aware = False\n', '    if netloc[0].startswith("[v"):\n        suffix_aware = False\n'),
